@@ -200,7 +200,11 @@ class Parser:
                 self.eat()
                 return ("assign", op, lhs, self.assign())
         if self.isop("?"):
-            raise Refuse(f"{self.what}: conditional expression")
+            self.eat()
+            a = self.expr()
+            self.eat(":")
+            b = self.assign()
+            return ("cond", lhs, a, b)
         return lhs
 
     def binary(self, lvl):
@@ -664,9 +668,12 @@ class Snippet:
             return ("outlen", a[2])
         kinds = {a[0], b[0]} - {"const"}
         if kinds <= {"nat", "byte"}:
-            lop = {"+": "+", "&": "&&&", "|": "|||", "<<": "<<<", ">>": ">>>", "*": "*"}.get(op)
+            lop = {"+": "+", "&": "&&&", "|": "|||", "<<": "<<<", ">>": ">>>", "*": "*", "-": "-"}.get(op)
             if lop is None:
                 raise Refuse(f"{self.prefix}: operator {op} on unsigned values")
+            if op == "-":
+                self.assumed.add("a difference of byte / unsigned values is translated as natural-number subtraction (right where "
+                                 "the code has checked that the minuend is not the smaller one, e.g. a digit after isHexDigit)")
             return ("nat", f"({self.lean_of(a)} {lop} {self.lean_of(b)})")
         if kinds <= {"int"}:
             lop = {"+": "+", "-": "-", "*": "*"}.get(op)
@@ -786,6 +793,8 @@ class Snippet:
                     return k(("int", f"(wrap32 {v[1]})", "int"), env2)
                 if ty == "int64" and v[0] == "int":
                     return k(("int", v[1], "int64"), env2)
+                if ty == "uint" and v[0] in ("nat", "const", "byte"):
+                    return k(("nat", self.lean_of(v)), env2)
                 if ty == "uint32" and v[0] in ("nat", "const"):
                     return k(("nat", f"({self.lean_of(v)} % 4294967296)"), env2)
                 if ty in ("uint64", "unsigned long long") and v[0] in ("nat", "const"):
@@ -798,6 +807,25 @@ class Snippet:
                     return self.ev(e[1][i], env2, ctx, k)
                 return self.ev(e[1][i], env2, ctx, lambda v, env3: seq(i + 1, env3))
             return seq(0, env)
+        if t == "cond":
+            # a conditional EXPRESSION over values that need no memory access: a Lean `if` term
+            box = []
+
+            def grab(v, env2):
+                if env2 is not env:
+                    raise Refuse(f"{self.prefix}: side effect inside a conditional expression")
+                box.append(v)
+                return ("leaf", "")
+            for sub in e[1:]:
+                node = self.ev(sub, env, ctx, grab)
+                if node != ("leaf", ""):
+                    raise Refuse(f"{self.prefix}: memory access inside a conditional expression")
+            c, a, b = box
+            if c[0] == "cbool":
+                return k(a if c[1] else b, env)
+            if c[0] != "prop" or not ({a[0], b[0]} <= {"nat", "byte", "const"}):
+                raise Refuse(f"{self.prefix}: conditional expression over {c[0]} / {a[0]} / {b[0]}")
+            return k(("nat", f"(if {c[1]} then {self.lean_of(a)} else {self.lean_of(b)})"), env)
         if t == "assign":
             return self.assign(e, env, ctx, k)
         if t == "call":
@@ -821,6 +849,8 @@ class Snippet:
                     old = ("uninit",) if nm in ("token.value", "token.token", "errorLine", "errorColumn", "errorString") \
                         else self.lookup(env2, nm)[0]
                     if old[0] == "jout" and v[0] == "jval":
+                        pass
+                    elif {old[0], v[0]} <= {"const", "nat", "byte"}:
                         pass
                     elif old[0] == "uninit" or old[0] == v[0] or {old[0], v[0]} <= {"ptr", "null"} or \
                             (old[0] == "bool" and v[0] == "cbool") or (old[0] == "cbool" and v[0] in ("bool", "cbool")):
@@ -849,6 +879,12 @@ class Snippet:
         _, fn, args = e
         if fn[0] == "id":
             name = fn[1]
+            if name == "ASSERT":                    # debug-only check: not part of the behaviour
+                return k(("void",), env)
+            if name == "Variant" and len(args) <= 1:
+                if not args:
+                    return k(("val", "Val.null"), env)
+                return self.ev(args[0], env, ctx, k)
             if name in ("String::isDigit", "String::isHexDigit", "String::isSpace") and len(args) == 1:
                 lean = {"String::isDigit": "isDigit", "String::isHexDigit": "isHexDigit", "String::isSpace": "isSpace"}[name]
 
@@ -865,13 +901,16 @@ class Snippet:
                     cset = "[" + ", ".join(str(b) for b in args[1][1]) + "]"
                     return ("find", self.find, cset, self.ptr_lean(p), var, k(("ptr", var, 0), env2), k(("null",), env2))
                 return self.ev(args[0], env, ctx, found)
-            if name == "String::compare" and len(args) == 3 and args[1][0] == "str" and args[2][0] == "num" \
-                    and args[2][1] == len(args[1][1]) and 0 not in args[1][1]:
+            if name == "String::compare" and len(args) == 3:
                 def cmp(p, env2):                 # result 0 in the one branch, non-zero in the other
-                    if p[0] != "ptr":
-                        raise Refuse(f"{self.prefix}: String::compare on a {p[0]} value")
-                    lit = "[" + ", ".join(str(b) for b in args[1][1]) + "]"
-                    return ("lit", self.lit, lit, self.ptr_lean(p), k(("const", 0), env2), k(("const", 1), env2))
+                    def cmp2(lv, env3):
+                        def cmp3(nv, env4):
+                            if p[0] != "ptr" or lv[0] != "lit" or nv != ("const", len(lv[1])) or 0 in lv[1]:
+                                raise Refuse(f"{self.prefix}: String::compare that is not (cursor, literal, its length)")
+                            lit = "[" + ", ".join(str(b) for b in lv[1]) + "]"
+                            return ("lit", self.lit, lit, self.ptr_lean(p), k(("const", 0), env4), k(("const", 1), env4))
+                        return self.ev(args[2], env3, ctx, cmp3)
+                    return self.ev(args[1], env2, ctx, cmp2)
                 return self.ev(args[0], env, ctx, cmp)
             if name == "Unicode::append" and len(args) == 2:
                 tgt = self.var_name(args[1])
@@ -983,12 +1022,25 @@ class Snippet:
             raise Refuse(f"{self.prefix}: recursive call of `{name}`")
         if len(params) != len(args):
             raise Refuse(f"{self.prefix}: call of `{name}` with {len(args)} arguments")
-        ren = {}
+        ren, byval = {}, []
         for (pname, byref), a in zip(params, args):
             an = self.var_name(a)
-            if not byref or an is None or "." in an:
-                raise Refuse(f"{self.prefix}: `{name}` takes something else than plain variables by reference")
-            ren[pname] = an
+            if byref and an is not None and "." not in an and an in env:
+                ren[pname] = an
+            else:
+                byval.append((pname, a))         # a value (or a temporary bound to a const reference): a fresh local of the callee
+        if byval:
+            def bind(i, env2):
+                if i == len(byval):
+                    return self.inline_body(name, ren, body, env, env2, ctx, k)
+                pname, a = byval[i]
+                if pname in env2:
+                    raise Refuse(f"{self.prefix}: parameter `{pname}` of `{name}` shadows a variable of the caller")
+                return self.ev(a, env2, ctx, lambda v, env3: bind(i + 1, self.declare(env3, pname, v, ctx)))
+            return bind(0, env)
+        return self.inline_body(name, ren, body, env, env, ctx, k)
+
+    def inline_body(self, name, ren, body, env, env_start, ctx, k):
         clash = (mutated_names(body, set()) - set(ren)) & {n for n in env if not n.startswith("$")}
         clash -= {"pos.pos", "pos.line", "token.value", "token.token", None}
         if clash:
@@ -1012,7 +1064,7 @@ class Snippet:
                 finally:
                     self.inlining.add(name)
             inner = Ctx(labels={}, depth=ctx.depth, ret=leave)
-            return self.exec_list(body, 0, env, inner, lambda env2: leave(("void",), env2))
+            return self.exec_list(body, 0, env_start, inner, lambda env2: leave(("void",), env2))
         finally:
             self.inlining.discard(name)
 
@@ -1132,7 +1184,9 @@ class Snippet:
                         if v[0] == "int" and v[2] != ty:
                             raise Refuse(f"{self.prefix}: `{ty} {name}` initialised from a {v[2]} without a cast")
                         return one(i + 1, self.declare(env3, name, v if v[0] == "const" else ("int", v[1], ty), ctx))
-                    if ty in ("uint", "uint32", "usize") and v[0] in ("nat", "const"):
+                    if ty in ("char", "uchar") and v[0] in ("byte", "const"):
+                        return one(i + 1, self.declare(env3, name, v, ctx))
+                    if ty in ("uint", "uint32", "usize") and v[0] in ("nat", "const", "byte"):
                         return one(i + 1, self.declare(env3, name, v, ctx))
                     raise Refuse(f"{self.prefix}: `{ty} {name}` initialised from a {v[0]} value")
                 return self.ev(init[1], env2, ctx, got)
@@ -1485,11 +1539,11 @@ def translate(cpp_text):
         params = []
         ok = True
         for part in [x.strip() for x in m.group(2).split(",") if x.strip()]:
-            pm = re.fullmatch(r"(?:const\s+)?(\w+)\s*(&?)\s*(\w+)", part)
+            pm = re.fullmatch(r"(const\s+)?(\w+)\s*([&*]?)\s*(\w+)", part)
             if not pm:
                 ok = False
                 break
-            params.append((pm.group(3), pm.group(2) == "&"))
+            params.append((pm.group(4), pm.group(3) == "&" and not pm.group(1)))
         if not ok:
             continue
         end = balanced(src, m.end() - 1)
